@@ -157,6 +157,7 @@ def check(run, ctx):
     r6(run, ctx)
     r7(run, ctx)
     r9(run, ctx)
+    r11(run, ctx)
 
 
 def r9(run, ctx):
@@ -406,3 +407,11 @@ def r7(run, ctx):
               'every later stop/restart/decr of that worker returns at once and the stop path '
               'waits in the reap loop for a worker that nobody signals (the daemon stops '
               'answering, see finding F-REAP-SPIN)')
+
+
+def r11(run, ctx):
+    from rules import c03
+    run.share(ctx, c03.r5_standalone, 'R5', 'R11', 'a vanished child of the worker does not abort '
+              'the termination (shared with C03 R5): NoSuchProcess escaping send_signal_process '
+              'makes kill_process answer "gone" for a live worker that was never signalled, and the '
+              'stop path then waits for it in the reap loop - on the loop thread')
